@@ -713,3 +713,52 @@ def conn_shutdown(u: U):
     u.check("C20.conn.close_marks_and_wakes",
             o3.ok and fields(h2)["_close"] is True and (("cancel", "waiter") in log) == idle,
             "close(): no further pipelined request; an idle connection (waiting for the next request) is woken at once")
+
+
+@unit("C20", "conn.lost_while_handling", functions=[f"{PROTO}:RequestHandler.connection_lost"])
+def conn_lost_while_handling(u: U):
+    """RequestHandler.connection_lost while a handler is still running (the client went away): the handler either is
+    cancelled there and then (handler_cancellation=True) or stays within reach of the shutdown sequence - the connection
+    still registered with the server and still holding its task - so that 'requests being handled are cancelled at the
+    latest after twice the shutdown timeout' also covers the handlers whose client has gone"""
+    log = []
+    hc = u.choose(2, "handler_cancellation") == 1
+    task_running = u.choose(2, "handler_running") == 1
+    task = _Fut(log, "task", done=not task_running)
+    registered = {"conn": True}
+
+    class _Manager:
+        handler_cancellation = hc
+
+        def connection_lost(self, conn, exc):
+            registered["conn"] = False
+            log.append(("manager.connection_lost",))
+
+    class _Req:
+        def _cancel(self, exc):
+            log.append(("request.cancel",))
+
+    class _Tr:
+        def close(self):
+            log.append(("transport.close",))
+
+    force = u.load(PROTO, "RequestHandler.force_close")
+    h = u.obj("RequestHandler",
+              {"_manager": _Manager(), "_request_factory": "RF", "_request_handler": "RH", "_parser": "P",
+               "_keepalive_handle": None, "_current_request": _Req() if task_running else None, "_task_handler": task,
+               "_payload_parser": None, "_force_close": False, "transport": _Tr(), "_waiter": None,
+               "_reading_paused": False, "_drain_waiter": None, "_paused": False, "_connection_lost": False},
+              {"force_close": lambda self: force(self), "super.connection_lost": lambda self, exc: None},
+              shared=False, real=(PROTO, "RequestHandler"))
+    f = u.load(PROTO, "RequestHandler.connection_lost")
+    out = u.call(f, h, None)
+    u.check("C20.conn.lost.total", out.ok, repr(out))
+    if not out.ok or not task_running:
+        return
+    cancelled = ("cancel", "task") in log
+    within_reach = registered["conn"] and fields(h)["_task_handler"] is task
+    u.check("C20.conn.lost.running_handler_stays_within_reach_of_shutdown", cancelled or within_reach,
+            "a handler still running when its client disconnects is cancelled at once (handler_cancellation) or remains "
+            "registered - connection in Server._connections, task in _task_handler - so that Server.shutdown() waits for "
+            "it and cancels it; otherwise it outlives runner.cleanup() and is never cancelled",
+            known=[("F20g", not hc)], witness={"handler_cancellation": hc})
